@@ -42,8 +42,13 @@ def real_pbs(raw):
 def gen_raw(rng):
     n = rng.choice([1, 2, 3, 4, 6])
     out = []
+    deep = rng.random() < 0.35          # all content lines deeply indented, blank lines shorter than the indent
     for i in range(n):
-        out.append(rng.choice(INDENTS) + rng.choice(BODIES) + (rng.choice(["", " ", "\t"]) if rng.random() < 0.2 else ""))
+        if deep:
+            line = ("    " + rng.choice(INDENTS[:4]) + rng.choice(["a", "b c", "\""])) if rng.random() < 0.65 else rng.choice(["", " ", "  ", "\t", "   "])
+            out.append(line)
+        else:
+            out.append(rng.choice(INDENTS) + rng.choice(BODIES) + (rng.choice(["", " ", "\t"]) if rng.random() < 0.2 else ""))
         if i + 1 < n or rng.random() < 0.3:
             t = rng.choice(TERMS[:3]) if rng.random() < 0.7 else rng.choice(TERMS)
             out.append(t * rng.choice([1, 1, 1, 2]))
@@ -141,6 +146,8 @@ def run(ctx):
     hand = ["", "a", "\n", "\r", "\r\n", "\n\n", "a\n", "\na", " a", "  a\n  b", "a\n  b\n   c", "\n    a\n  b", "a\r\n  b\r  c\n  d",
             "a\u2028b", "a\u2029b", "a\x85b", "a\x0bb", "a\x0cb", "a\x1cb", "a\x1db", "a\x1eb", "\n\xa0a\n\xa0b", "\n\u2003a\n\u2003b",
             "a\n\xa0\nb", "\xa0", " \xa0 ", "\n \n", "  \n\t\n", "a\n\n\nb", "a\n \n  b", "\n\n a \n\n", "a\r\rb", "a\n\rb", "a\r\n\r\nb",
+            "a\n    b\n  \n    c", "\n    a\n \n    b\n", "a\n    b\n\t\n    c", "    a\n    b\n  \n    c", "a\n  b\n \n  c\n", "\n      a\n   \n\n      b",
+            "a\r\n    b\r\n  \r\n    c", "a\n  b\n \t\n  c",
             "  a", "\ta\n\tb", " \ta\n \tb", "\t a\n \tb", "a\n  ", "a\n  \n", "   \n  a\n   ", "a\n b\nc", "\n a\n\n b"]
     check_block_raws(ctx, corpus + hand, "hand")
     check_block_raws(ctx, [gen_raw(rng) for _ in range(ctx.n(1500, 15000))], "generated")
